@@ -26,7 +26,8 @@ RULE = ('Operators are npc Arrays with a random charge structure (none/Z2/U1/Z3/
         'families generic / degenerate minimum / degenerate maximum / clustered, real and complex, start vectors '
         'random or inside 1-3 dimensional invariant subspaces; general matrices for Arnoldi/GMRES. Every option '
         '(N_min, N_max, N_cache, reortho, cutoff, E_shift, E_tol, P_tol, which, num_ev, restart, res) is drawn; each '
-        'Lanczos case is re-run with N_cache in {2,3,N_max} and with E_shift toggled. A case is non-trivial when the '
+        'Lanczos case is re-run with N_cache in {2,3,N_max} and with E_shift toggled. Reuse histories (part reuse, d=2..12): run() 2-5 times on one object of every solver class, delta/normalize changing between calls, reortho on/off, N_cache 2/3/N_max+-/default; each call is compared with a fresh object and the dense reference, earlier results and the arguments must stay untouched. '
+        'A case is non-trivial when the '
         'sector has d >= 2 and the solver did N >= 2 steps; distinct by content hash.')
 TRUSTED = ['Lean 4.33 kernel; axioms of every C16_* theorem within {propext, Classical.choice, Quot.sound}',
            'Mathlib modules imported by the proof files (Analysis.InnerProductSpace.Rayleigh, …)',
@@ -35,7 +36,9 @@ TRUSTED = ['Lean 4.33 kernel; axioms of every C16_* theorem within {propext, Cla
            'the driver instantiates the square root by a 200-bit approximation and rounds normalised vectors to '
            '2^-200 (bookkeeping theorems hold for every such instance; exactness theorems assume a true square root)',
            'numpy eigh/eig/svd and scipy.linalg.expm as the independent dense oracle']
-ASSUMPTIONS = ['np.linalg.eigh / eig of the small projected matrix return eigenpairs (their output is a parameter of the '
+ASSUMPTIONS = ['the model treats a solver as a function of (operator, start vector, options[, delta]); state kept on the object between '
+               'run() calls is checked not to matter by the reuse histories (differences are reported, see known_findings)',
+               'np.linalg.eigh / eig of the small projected matrix return eigenpairs (their output is a parameter of the '
                'model; the Ritz certificate is re-checked on every result by the dense oracle)',
                'float cases are conditioned: spectral gaps >= 0.05, no forced continuation after an exact breakdown '
                'unless a cutoff above the rounding noise is set, E_shift for projected operators just below the '
